@@ -110,11 +110,18 @@ inductive PEv where
   | tag (pos : Nat) (t : Tag)
 deriving Repr, DecidableEq
 
-/-- `tag_text.partition("=")` turned into a `Tag` (markup.py:84-85). -/
+/-- `text, equals, parameters = tag_text.partition("=")`: (text, parameters if equals else None) -/
+def splitEq : List Char → List Char × Option (List Char)
+  | [] => ([], none)
+  | c :: cs =>
+    if c = '=' then ([], some cs)
+    else match splitEq cs with
+      | (n, p) => (c :: n, p)
+
+/-- `_Tag(text, parameters if equals else None)` (markup.py:84-85). -/
 def mkTag (body : List Char) : Tag :=
-  match body.span (· != '=') with
-  | (n, []) => { name := n, params := none }
-  | (n, _ :: p) => { name := n, params := some p }
+  match splitEq body with
+  | (n, p) => { name := n, params := p }
 
 /-- What one match yields (markup.py:73-86), `start` = `match.start()`. -/
 def tagYield (start k : Nat) (body : List Char) : List PEv :=
